@@ -129,7 +129,13 @@ where
             WaitingProjected::NoPool => Poll::Ready(WaitingPoll::Closed),
         };
 
-        if polled.is_ready() {
+        // Only give up the receiver once it has resolved. An idle waiter which is merely
+        // not ready yet must keep listening, so that a connection returned to the pool while
+        // this checkout is still connecting can be delivered to it (and wake it).
+        if matches!(
+            polled,
+            Poll::Ready(WaitingPoll::Connected(_)) | Poll::Ready(WaitingPoll::Closed)
+        ) {
             self.as_mut().set(Waiting::NoPool);
         };
 
